@@ -6,5 +6,6 @@ CONSTANTS
   Progs <- MCProgs
   Full = FALSE
   HModes = {"chain"}
+CONSTRAINT Emit
 INVARIANTS InvCompleteIsWhole InvOrder InvFailStop InvNothingPastViolation InvDecode
 CHECK_DEADLOCK FALSE
